@@ -267,7 +267,7 @@ def run(ctx):
                     acc = map_access(node, G)
                     if acc is None:
                         continue
-                    if not any(gg is guard for (_, gg) in lr.held_at(acc[1])):
+                    if not any(gg is guard for (_, gg) in lr.held_at(acc[1])) or not lr.same_epoch(site, acc[1], guard):
                         continue
                     (reads if acc[0] == 'read' else writes if acc[0] == 'write' else []).append(acc[1])
                 r_ok = any(all(any(rn.id in dom[sn.id] for rn in g.nodes_for(r)) for sn in snodes)
